@@ -256,7 +256,8 @@ func (delegatee *Delegatee) doSlashAll(ratio int64) int64 {
 
 	var removingStakes []*Stake
 	for _, s0 := range delegatee.Stakes {
-		slashedPower := (s0.Power * ratio) / int64(100)
+		// (power * ratio) / 100 without overflowing int64 for large powers
+		slashedPower := (s0.Power/int64(100))*ratio + ((s0.Power%int64(100))*ratio)/int64(100)
 		if slashedPower < 1 {
 			removingStakes = append(removingStakes, s0)
 			slashedPower = s0.Power
